@@ -122,21 +122,28 @@ claim("C04",
       "Rocq theorems (decision rules of the coordinator model, all states): C04_status (Success if goal, else Fail if detected, else "
       "TimeoutReached at the step limit, else unchanged), C04_step (counters, end rule incl. 'no attacker playing any more', final "
       "results wait at the rewards barrier), C04_reply, C04_absorbing (+frame: FORBIDDEN with the same view, reward, reason; no "
-      "counter changes), C04_defender_reason. Tie: trace-following correspondence; monitor: reference of the rule over all responses "
+      "counter changes), C04_defender_reason; across labels, for every reachable state and every continuation: C04_stays_ended (ended, "
+      "step counter and view frozen until the reset task or departure), C04_one_label (complete case list of what one label can do "
+      "to one agent's record). Tie: trace-following correspondence; monitor: reference of the rule over all responses "
       "(reference goal check independent of coordinator.goal_check).", C_NOTE, C_TECH, "DESIGN.md section 7, C04")
 claim("C05",
       "Rocq theorems: C05_step, C05_bonus (bonus by role and outcome, marks the agent rewarded), C05_once (a rewarded agent is left "
-      "exactly as it is when the reward task fires again), C05_only_all_ended, C05_effect, C05_forbidden, C05_reset. Partial: the "
-      "'constant until reset across ALL labels' statement is decided by the monitor over every task step (reward of a rewarded agent "
-      "must not change outside the reset task) rather than by an inductive theorem.", C_NOTE, C_TECH, "DESIGN.md section 7, C05")
+      "exactly as it is when the reward task fires again), C05_only_all_ended, C05_effect, C05_forbidden, C05_reset; across labels, by induction over all label sequences (invariant "
+      "Inv2, Proofs/CoordInv2.v, CoordAgentStep.v): C05_once_episode (from any reachable state in which an agent is rewarded, "
+      "every continuation without a run of the reset task leaves its reward, status, view and counter exactly as they are while it "
+      "is in the game), C05_rewarded_ended (no bonus before the end), C05_reward_moves. The monitor checks the same over every task "
+      "step of real sessions.", C_NOTE, C_TECH, "DESIGN.md section 7, C05")
 claim("C06",
       "Rocq theorems: C06_end (handlers waiting for the end are released only by the reward task, which does nothing unless every "
       "agent in the game has finished), C06_end_all (then all are released in one step: no lost wake-up), C06_quiescent, C06_nonfinal "
-      "(non-final observations are answered in the segment that executed the action). Join barrier: decided by the trace-following "
+      "(non-final observations are answered in the segment that executed the action), C06_parked_final (in every reachable state a "
+      "handler held at the end barrier belongs to a finished agent and reports exactly the stored view). Join barrier: decided by the trace-following "
       "correspondence and the quiescence monitor (partial).", C_NOTE, C_TECH, "DESIGN.md section 7, C06")
 claim("C07",
       "Rocq theorems: C07_collective (the reset task does nothing unless the game is non-empty and every agent has asked), "
-      "C07_voluntary (an agent that has not asked keeps its whole record across any run of the reset task), C07_fresh, C07_done. "
+      "C07_voluntary (an agent that has not asked keeps its whole record across any run of the reset task), C07_fresh, C07_done; across labels: C07_request_stays (a registered request stays registered until the reset task runs or "
+      "the agent leaves), C07_request_handler (in every reachable state a registered request has its handler waiting for the "
+      "reset), C07_cleared_by_reset. "
       "Monitor: reset steps and foreign changes of steps/view/end flag in every task step.", C_NOTE, C_TECH, "DESIGN.md section 7, C07")
 claim("C09",
       "Rocq theorems: C09_garbage / C09_reject (every bad request - garbage, second join, join without agent_info or with an unknown "
@@ -151,7 +158,8 @@ claim("C10",
       "I/O (TCP/asyncio).", C_NOTE, C_TECH, "DESIGN.md section 7, C10")
 claim("C16",
       "Rocq theorems: C16_step (the triple appended to the trajectory is produced in the same step and with the same reward as the OK "
-      "response), C16_refused, C16_frame, C16_handout, C16_files. Monitor: last_trajectory of every RESET_DONE compared with the log "
+      "response), C16_refused, C16_frame, C16_handout, C16_files; for every reachable state: C16_wf (one more state than actions, as many rewards "
+      "as actions), C16_one_label (one label leaves a trajectory alone, appends exactly the answered triple, or restarts it). Monitor: last_trajectory of every RESET_DONE compared with the log "
       "of OK responses the harness received; trajectory files compared with the model after every step (sessions run in a scratch "
       "working directory without a trajectories folder).", C_NOTE, C_TECH, "DESIGN.md section 7, C16")
 claim("C18",
